@@ -186,8 +186,8 @@ def main(argv=None):
         "prove_timeout_ms": 60000 if thorough else 15000,
         "feas_timeout_ms": 5000 if thorough else 3000,
         "keep_formulas": True,
-        "path_budget_s": int(os.environ.get("PYVC_PATH_BUDGET", "1800" if thorough else "300")),
-        "function_budget_s": int(os.environ.get("PYVC_FUNCTION_BUDGET", "7200" if thorough else "900")),
+        "path_budget_s": int(os.environ.get("PYVC_PATH_BUDGET", "1800" if thorough else "600")),
+        "function_budget_s": int(os.environ.get("PYVC_FUNCTION_BUDGET", "7200" if thorough else "2400")),
     }
     targets = [t for t, s in REG.contracts.items() if prop in s.props and not s.assumed]
     if args.only:
